@@ -4,6 +4,7 @@ package main
 // Every entry registered here is reported in the evidence under trusted_base / assumptions.
 
 import (
+	"fmt"
 	"math/big"
 	"go/types"
 	"strconv"
@@ -439,6 +440,9 @@ func registerExterns(w *World) {
 	w.ext("(*sync.Mutex).TryLock", "Mutex.TryLock: either acquires the mutex and returns true, or returns false without acquiring it", func(ex *Exec, st *State, c *callCtx) {
 		miss := st.clone()
 		ex.paths++
+		if tag, _, ok := lockIdent(c.args[0]); ok && ex.atom != nil && ex.atom.ok && tag == ex.atom.tag {
+			ex.record(miss, fmt.Sprintf("%s/atomic:must-acquire@%s", ex.rootName, c.site), "atomic", "false", "the operation only tries its mutex: when another delivery holds it the operation's critical section is skipped, which no sequential order of the deliveries explains")
+		}
 		inner := *c
 		inner.k = func(s *State, _ Val) { c.k(s, term("true", tBool)) }
 		externLock(ex, st, &inner)
